@@ -1111,7 +1111,7 @@ def gen_slice_consts(rng):
     if rng.random() < 0.4:
         decl.append(_item(k="const", lvl=0, name="cut", e={"k": "sshort", "e": var("word"), "n": var("hi")}))
     rng.shuffle(decl)
-    use = [_item(k="data", w=-1, es=[var("top")])]
+    use = [_item(k="data", w=16, es=[var("top")])]          # (a stated width: the program stays size-static)
     if any(d["name"] == "cut" for d in decl):
         use.append(_item(k="data", w=32, es=[var("cut")]))
     items = decl + use if rng.random() < 0.5 else use + decl
@@ -1271,6 +1271,17 @@ def gen_cond_program(rng):
         items.append(_item(k="label", lvl=0, name="lab"))
         items.append(_item(k="const", lvl=1, name="N", e={"k": "num", "text": ["3"]}))
         items.append(_item(k="data", w=8, es=[{"k": "var", "lvl": 0, "path": ["lab", "N"]}]))
+        if rng.random() < 0.5:
+            # a condition that names the nested constant with a leading dot, and (sometimes) a global of the same
+            # name with another value: the pre-pass evaluates in the global scope, where `.N` is not `N`
+            it = _item(k="if", e={"k": "bin", "op": "eq", "l": {"k": "var", "lvl": 1, "path": ["N"]}, "r": {"k": "num", "text": [rng.choice(["3", "5"])]}})
+            it["then"] = [mark()]
+            it["else"] = [mark()]
+            it["haselse"] = True
+            items.append(it)
+            if rng.random() < 0.7:
+                items.insert(rng.randrange(0, len(items) + 1) if rng.random() < 0.5 else len(items),
+                             _item(k="const", lvl=0, name="N", e={"k": "num", "text": ["5"]}))
     # defines
     defines, argv = [], []
     for _ in range(rng.choice([0, 0, 1, 1, 2, 3])):
@@ -1363,6 +1374,14 @@ def gen_macro_program(rng):
         elif c < 0.55:
             # a body that reads the address of the calling item or a label: nothing about it is known in advance
             body = {"k": "bin", "op": rng.choice(["add", "sub"]), "l": var(rng.choice(["$", "lab1", "lab0"])), "r": var(params[0])}
+        elif c < 0.68:
+            # a free name that is also a parameter or a local of the rules that call this function (and, in some
+            # programs, a global symbol): a function body sees its own parameters and the symbols, nothing of its caller
+            body = {"k": "bin", "op": rng.choice(["add", "sub"]), "l": var(params[0]), "r": var(rng.choice(["a", "d", "a", "b"]))}
+        elif c < 0.74:
+            # a body that assigns a local named like one of its caller's: the caller's stays what it was
+            body = {"k": "block", "es": [{"k": "assign", "name": rng.choice(["d", "a", "t"]), "e": _cmp("mul", var(params[0]), numlit("2"))},
+                                         _cmp("add", var(rng.choice(["d", "a", "t"])), numlit("1"))]}
         elif c < 0.8 and fnames:
             body = {"k": "call", "f": rng.choice(fnames), "args": [var(params[0])] * 1}
             # arity may be wrong on purpose sometimes
@@ -1384,6 +1403,13 @@ def gen_macro_program(rng):
         rules.append({"block": "cpu", "sub": False, "pat": [_lit("fcall"), {"p": "ws"}, _par("a")],
                       "prod": concat([numlit("0xf0"), {"k": "sshort", "e": {"k": "call", "f": f["name"], "args": args}, "n": numlit("8")}])})
         base.append((rules[-1], [("untyped", 8)]))
+        if rng.random() < 0.5:
+            # a production with a local of its own around the call: { d = a + 32, 0xf1 @ f(a)`8 @ d`8 }
+            rules.append({"block": "cpu", "sub": False, "pat": [_lit("floc"), {"p": "ws"}, _par("a")],
+                          "prod": {"k": "block", "es": [{"k": "assign", "name": "d", "e": _cmp("add", var("a"), numlit("32"))},
+                                                        concat([numlit("0xf1"), {"k": "sshort", "e": {"k": "call", "f": f["name"], "args": args}, "n": numlit("8")},
+                                                                {"k": "sshort", "e": var("d"), "n": numlit("8")}])]}})
+            base.append((rules[-1], [("untyped", 8)]))
     # macros over the base rules
     nm = rng.randrange(1, 4)
     for k in range(nm):
@@ -1449,14 +1475,27 @@ def gen_macro_program(rng):
     # the program
     labels = ["lab0", "lab1"]
     items = [_item(k="label", lvl=0, name="lab0")]
+    consts = []
+    if rng.random() < 0.4:
+        # global symbols named like the parameters and locals of the rules and functions
+        for nm in rng.sample(["a", "d", "b", "t"], rng.choice([1, 2])):
+            items.insert(0, _item(k="const", lvl=0, name=nm, e=numlit(str(rng.randrange(1, 60)))))
+            consts.append(nm)
+    nested = []
     for i in range(rng.randrange(2, 9)):
         c = rng.random()
+        if rng.random() < 0.2:
+            # a nested label of the call site: an operand `.here` means lab0.here wherever the rule was written
+            nm = "h%d" % len(nested)
+            items.append(_item(k="label", lvl=1, name=nm))
+            nested.append("." + nm)
+        refs = labels + nested * 2 + consts
         if c < 0.5 and macros:
             m = rng.choice(macros)
-            items.append(_item(k="instr", toks=instantiate(rng, m["rule"], m["ops"], labels, [])))
+            items.append(_item(k="instr", toks=instantiate(rng, m["rule"], m["ops"], refs, [])))
         elif c < 0.8 and base:
             rule, ops = rng.choice(base)
-            items.append(_item(k="instr", toks=instantiate(rng, rule, ops, labels, [])))
+            items.append(_item(k="instr", toks=instantiate(rng, rule, ops, refs, [])))
         elif c < 0.9 and fns:
             f = rng.choice(fns)
             if f["name"] == "cnt":
